@@ -20,7 +20,7 @@
 #ifdef C17_NBOUND
 #define FOR_IDX(k, v) for (k = 0; k <= C17_NBOUND; k++) if (k == (v))
 #else
-#define FOR_IDX(k, v) k = (v);
+#define FOR_IDX(k, v) if (((k) = (v)), 1)
 #endif
 
 void h_inc_aggregate(void) {
